@@ -387,6 +387,7 @@ type c12SolPacked struct {
 type c12SolVerify struct {
 	File      string         `json:"file"`
 	Params    [][2]string    `json:"params"` // (type, name)
+	PackFn    string         `json:"packFn"` // the encoding function inside keccak256(...): abi.encodePacked | abi.encode | …
 	Packed    []c12SolPacked `json:"packed"`
 	DigestVar string         `json:"digestVar"`
 	EcArgs    []string       `json:"ecArgs"`
@@ -477,7 +478,10 @@ func c12SolSig(path string) (v c12SolVerify, ck c12SolCheck, entries []c12SolEnt
 		for _, p := range v.Params {
 			ptype[p[1]] = p[0]
 		}
-		if args, _, ok := solCallArgs(body, "abi.encodePacked"); ok {
+		if m := regexp.MustCompile(`keccak256\s*\(\s*([\w.]+)\s*\(`).FindStringSubmatch(body); m != nil {
+			v.PackFn = m[1]
+		}
+		if args, _, ok := solCallArgs(body, v.PackFn); ok && v.PackFn != "" {
 			for _, a := range args {
 				if strings.HasPrefix(a, "\"") {
 					v.Packed = append(v.Packed, c12SolPacked{Kind: "lit", Lit: solUnescape(strings.Trim(a, "\""))})
@@ -486,7 +490,7 @@ func c12SolSig(path string) (v c12SolVerify, ck c12SolCheck, entries []c12SolEnt
 				}
 			}
 		}
-		if m := regexp.MustCompile(`bytes32\s+(\w+)\s*=\s*keccak256\s*\(\s*abi\.encodePacked`).FindStringSubmatch(body); m != nil {
+		if m := regexp.MustCompile(`bytes32\s+(\w+)\s*=\s*keccak256\s*\(`).FindStringSubmatch(body); m != nil {
 			v.DigestVar = m[1]
 		}
 		if args, _, ok := solCallArgs(body, "ecrecover"); ok {
@@ -694,6 +698,7 @@ arguments of ` + "`ecrecover`" + `, and ` + "`return <retLhs> <retOp> ecrecover(
 structure SolVerifySig where
   file : String
   params : List (String × String)
+  packFn : String                          -- the encoding function inside keccak256(...)
   packed : List SolPacked
   digestVar : String
   ecArgs : List String
@@ -751,7 +756,7 @@ structure SolEntry where
 		if i == len(vs)-1 {
 			sep = ""
 		}
-		fmt.Fprintf(&sb, "  ⟨%s, %s, %s, %s, %s, %s, %s⟩%s\n", leanStr(v.File), leanPairs(v.Params), leanList(ps), leanStr(v.DigestVar), c12LeanStrs(v.EcArgs), leanStr(v.RetLhs), leanStr(v.RetOp), sep)
+		fmt.Fprintf(&sb, "  ⟨%s, %s, %s, %s, %s, %s, %s, %s⟩%s\n", leanStr(v.File), leanPairs(v.Params), leanStr(v.PackFn), leanList(ps), leanStr(v.DigestVar), c12LeanStrs(v.EcArgs), leanStr(v.RetLhs), leanStr(v.RetOp), sep)
 	}
 	sb.WriteString("]\n\ndef solCheckSigs : List SolCheckSigs := [\n")
 	for i, k := range cks {
